@@ -23,6 +23,20 @@ type V struct {
 // digest of the observable outcome.
 type RunFn func(program json.RawMessage, prefix []string) (tr *vsched.Trace, viols []V, outcome string)
 
+// Confirmations is how often a violating schedule is re-executed before its
+// violations are believed (signatures that do not show again are counted as
+// unconfirmed, never reported).
+var Confirmations = 2
+
+func seenSig(confirmed map[string]bool, viols []V) bool {
+	for _, v := range viols {
+		if !confirmed[v.Sig] {
+			return false
+		}
+	}
+	return true
+}
+
 // MaxPerJob bounds the executions a worker does for one job; the unexplored
 // frontier goes back to the master.
 var MaxPerJob = 3000
@@ -36,6 +50,7 @@ func Handler(run RunFn) func(raw json.RawMessage) (json.RawMessage, error) {
 		}
 		var res schedx.Result
 		outcomes := map[string]bool{}
+		confirmed := map[string]bool{}
 		stack := [][]string{j.Prefix}
 		for len(stack) > 0 {
 			if int(res.Executions) >= MaxPerJob || (!j.Subtree && res.Executions >= 1) {
@@ -81,6 +96,44 @@ func Handler(run RunFn) func(raw json.RawMessage) (json.RawMessage, error) {
 			}
 			if p := vsched.Preemptions(tr); p > res.MaxPreempt {
 				res.MaxPreempt = p
+			}
+			if len(viols) > 0 && Confirmations > 0 && !seenSig(confirmed, viols) {
+				// believe a violation only if the same schedule shows it again
+				full := tr.Choices()
+				keep := map[string]bool{}
+				for _, v := range viols {
+					keep[v.Sig] = true
+				}
+				for c := 0; c < Confirmations; c++ {
+					tr2, viols2, _ := run(j.Program, full)
+					again := map[string]bool{}
+					if tr2.Diverged == "" {
+						for _, v := range viols2 {
+							again[v.Sig] = true
+						}
+						if tr2.Deadlock {
+							again["deadlock"] = true
+						}
+						if tr2.Unsettled {
+							again["scheduler-could-not-settle"] = true
+						}
+					}
+					for sig := range keep {
+						if !again[sig] {
+							delete(keep, sig)
+						}
+					}
+				}
+				var kept []V
+				for _, v := range viols {
+					if keep[v.Sig] {
+						kept = append(kept, v)
+						confirmed[v.Sig] = true
+					} else {
+						res.Unconfirmed++
+					}
+				}
+				viols = kept
 			}
 			for _, v := range viols {
 				if len(res.Viols) < 20 {
